@@ -64,9 +64,10 @@ def extract_constants(c):
     rsrc = open(os.path.join(common.REPO, "src", "rebound.c")).read()
     m2 = re.search(r"if \(thread_info->tmax != r->t\)\{(.*?)\n    \}", rsrc, flags=re.S)
     blk = m2.group(1) if m2 else ""
-    if "copysign" not in blk:
+    asg = re.search(r"r->dt\s*=\s*copysign", blk)
+    if not asg:
         c.broken.append("proof obligation: the dt sign assignment of reb_simulation_integrate_raw was not found")
-    K["syncFirst"] = int("reb_simulation_synchronize" in blk and blk.index("reb_simulation_synchronize") < blk.index("copysign")) if "copysign" in blk else 0
+    K["syncFirst"] = int(bool(asg) and "reb_simulation_synchronize" in blk[:asg.start()])
     c.cov["integrate_entry_variant"] = "synchronises before flipping dt" if K["syncFirst"] else "as found (flips the sign of dt without synchronising: C09-integrate-reverse)"
     K["SC"] = table("reb_saba_c", True)
     K["SD"] = table("reb_saba_d", True)
@@ -595,8 +596,9 @@ def replay_mercurius(c, W, exe, ncases):
         if "s" not in ops:
             ops.append("s")
         safe = int(rng.chance(0.35))
-        lines.append("M %d 1 0 0 0 0 %s" % (safe, " ".join(ops)))
-        cases.append((safe, system, ops))
+        toks, ops = add_integrates(rng, ops, Clock(system["dt"], False), W.K["syncFirst"])
+        lines.append("M %d 1 0 0 0 0 %s" % (safe, " ".join(toks)))
+        cases.append((safe, system, ops, toks))
     out = run_driver(exe, lines)
     if len(out) != len(lines):
         c.corr_break("drv_c09 returned %d lines for %d mercurius cases" % (len(out), len(lines)))
@@ -605,12 +607,13 @@ def replay_mercurius(c, W, exe, ncases):
 
     def msnap(s):
         rim = s.ri_mercurius
-        d = {"particles": W.pbytes(s._particles, s.N), "t": d2h(s.t),
+        d = {"particles": W.pbytes(s._particles, s.N), "t": d2h(s.t), "dt": d2h(s.dt),
              "com": [d2h(getattr(v, k)) for v in (rim._com_pos, rim._com_vel) for k in ("x", "y", "z")],
              "dcrit": [d2h(rim._dcrit[i]) for i in range(s.N)] if rim._N_allocated_dcrit >= s.N else None}
         return d
 
-    for (safe, system, ops), line, model in zip(cases, lines, out):
+    nint = 0
+    for (safe, system, ops, toks), line, model in zip(cases, lines, out):
         def setup(s):
             s.ri_mercurius.safe_mode = safe
         A = W.sim(system, "mercurius", setup)
@@ -618,11 +621,17 @@ def replay_mercurius(c, W, exe, ncases):
         st = {}
         segs = model.split(";")
         prng = SplitMix(c.seed * 7919 + len(line))
-        for k, (op, seg) in enumerate(zip(ops, segs)):
+        for k, (opt, seg) in enumerate(zip(ops, segs)):
+            op = opt[0]
             prims, _, fl = seg.partition("@")
             prims = [p for p in prims.split(",") if p]
             mflags = [int(x) for x in fl.split()]
-            if op == "s":
+            if op == "i":
+                A.exact_finish_time = opt[2]
+                st["tmax"] = opt[1]
+                W.lib.reb_simulation_integrate(ctypes.byref(A), opt[1])
+                nint += 1
+            elif op == "s":
                 W.lib.reb_simulation_step(ctypes.byref(A))
             elif op == "y":
                 W.lib.reb_simulation_synchronize(ctypes.byref(A))
@@ -635,7 +644,7 @@ def replay_mercurius(c, W, exe, ncases):
                 dv = prng.uniform(-1e-3, 1e-3)
                 A.particles[i].vy += dv
                 B.particles[i].vy += dv
-            if op == "s" and A.ri_mercurius._encounter_N > 1:
+            if op in "si" and A.ri_mercurius._encounter_N > 1:
                 nenc += 1
                 break          # a close encounter happened: outside the replayable part
             W.execute(B, [p for p in prims if p != "warn"], st)
@@ -647,12 +656,12 @@ def replay_mercurius(c, W, exe, ncases):
             if a != b or aflags != mflags:
                 what = "flags" if aflags != mflags else [k2 for k2 in a if a[k2] != b[k2]][0]
                 c.corr_break("mercurius schedule replay differs from reb_simulation_%s in %s (op %d of '%s', safe_mode=%d)"
-                             % ("step" if op == "s" else "synchronize", what, k, " ".join(ops), safe),
+                             % ({"s": "step", "i": "integrate"}.get(op, "synchronize"), what, k, " ".join(toks), safe),
                              {"driver_line": line, "op_index": k, "model_prims": prims, "model_flags": mflags,
                               "real_flags": aflags, "system": system})
                 return
-            c.count(("replay", "mercurius", safe, op, tuple(mflags)), nontrivial=(op in "sy"))
-    c.cov["replay_mercurius"] = {"cases": ncases, "primitive_calls_executed": nprims, "cases_cut_at_a_close_encounter": nenc}
+            c.count(("replay", "mercurius", safe, op, tuple(mflags)), nontrivial=(op in "syi"))
+    c.cov["replay_mercurius"] = {"cases": ncases, "primitive_calls_executed": nprims, "cases_cut_at_a_close_encounter": nenc, "integrate_calls": nint}
 
 
 # ----------------------------------------------------------------------------- footprint table
@@ -879,6 +888,100 @@ def probe_first_call(c, d):
     c.cov["first_call_probe"] = res
 
 
+def api_sequences(c, W, cfgs):
+    """(b) sequences of public API calls — steps(n), integrate(t+d) with d<dt, =dt, >dt, backwards, 0,
+    exact_finish_time 0/1, synchronize — in unsafe mode must reproduce the same calls in safe mode"""
+    nseq = 6 if c.thorough else 2
+    worst = {}
+    nrev = 0
+    for label, integ, mk, has_keep in cfgs:
+        fam = label.split()[0]
+        if "c2=1" in label:
+            continue                      # F18 is reported by search(); here it would only mask other things
+        for q in range(nseq):
+            rng = c.rng.fork()
+            system = gen_system(rng)
+            if integ == "saba":
+                system["N_active"], system["testparticle_type"] = -1, 0
+            if integ == "mercurius":
+                system["particles"] = [p if i == 0 else (p[0] * 0.03,) + p[1:] for i, p in enumerate(system["particles"])]
+            if integ == "eos":
+                system["dt"] *= 0.2
+            plan = []
+            for _ in range(rng.randint(3, 7)):
+                u = rng.uniform()
+                if u < 0.4:
+                    plan.append(("steps", rng.randint(1, 6)))
+                elif u < 0.5:
+                    plan.append(("sync",))
+                else:
+                    kind = rng.choice(["lt", "lt", "lt", "eq", "gt", "gt", "rev", "zero"])
+                    plan.append(("integrate", kind, rng.uniform(0.05, 0.95), 1 if integ == "eos" else int(rng.chance(0.65))))
+            if not any(p[0] == "integrate" for p in plan):
+                plan.append(("integrate", "lt", 0.4, 1))
+            if plan[0][0] != "steps":
+                plan.insert(0, ("steps", rng.randint(1, 4)))      # enter the first integrate unsynchronised
+
+            def run_seq(mode, halve):
+                sy = dict(system)
+                if halve:
+                    sy["dt"] = system["dt"] / 2
+                s = W.sim(sy, integ, mk(mode))
+                r = ctypes.byref(s)
+                snaps, info = [], []
+                base_dt = abs(system["dt"])
+                for p in plan:
+                    if p[0] == "steps":
+                        for _ in range(p[1] * (2 if halve else 1)):
+                            W.lib.reb_simulation_step(r)
+                    elif p[0] == "sync":
+                        W.lib.reb_simulation_synchronize(r)
+                    else:
+                        kind, u, ex = p[1], p[2], p[3]
+                        d = {"lt": u * base_dt, "eq": base_dt, "gt": (1 + 3.5 * u) * base_dt,
+                             "rev": -(0.05 + 3 * u) * base_dt, "zero": 0.0}[kind]
+                        fwd = math.copysign(1., s.dt)
+                        ri = {"whfast": s.ri_whfast, "saba": s.ri_saba, "mercurius": s.ri_mercurius, "eos": s.ri_eos}[integ]
+                        unsync_entry = (ri.is_synchronized == 0)
+                        s.exact_finish_time = ex
+                        W.lib.reb_simulation_integrate(r, s.t + fwd * d)
+                        snaps.append((coords(W, s), s.t))
+                        info.append((kind, ex, unsync_entry))
+                W.lib.reb_simulation_synchronize(r)
+                snaps.append((coords(W, s), s.t))
+                info.append(("end", 1, False))
+                return snaps, info
+
+            sa, _ = run_seq("safe", False)
+            su, info = run_seq("unsafe", False)
+            sh = run_seq("safe", True)[0] if integ == "eos" else None
+            c.count(("api-seq", label, q, tuple(p[:2] for p in plan)))
+            tainted = False
+            for j, ((ca, ta), (cu, tu)) in enumerate(zip(sa, su)):
+                sx = max(abs(v) for p in ca for v in p[:3])
+                sv = max(abs(v) for p in ca for v in p[3:])
+                err = max(max(abs(a[k] - b[k]) / (sx if k < 3 else sv) for k in range(6)) for a, b in zip(ca, cu))
+                tol = 1e-10
+                if integ == "eos":
+                    ch = sh[j][0]
+                    tol = 10 * max(max(abs(a[k] - b[k]) / (sx if k < 3 else sv) for k in range(6)) for a, b in zip(ca, ch)) + 1e-10
+                kind, ex, unsync_entry = info[j]
+                rev_unsync = (kind == "rev" and unsync_entry)
+                if rev_unsync:
+                    nrev += 1
+                if ta != tu or not err <= tol:
+                    key = "C09:integrate-reverse-unsynchronized" if rev_unsync else "api-sequence:" + fam
+                    c.violation(key, "%s: the call sequence %s in unsafe mode differs from safe mode by %.3g relative after call %d (integrate kind %s, exact_finish_time=%d, unsynchronised on entry: %s)"
+                                % (label, [p[:2] for p in plan], err, j, kind, ex, unsync_entry),
+                                {"integrator": integ, "label": label, "system": system, "plan": plan, "call_index": j,
+                                 "relative_difference": err, "t_safe": ta, "t_unsafe": tu})
+                    tainted = True
+                    break
+                worst[fam] = max(worst.get(fam, 0.0), err)
+    c.cov["api_sequences_worst_relative_difference"] = {k: float("%.3g" % v) for k, v in sorted(worst.items())}
+    c.cov["api_sequences_reverse_integrate_while_unsynchronised"] = nrev
+
+
 def search(c, W):
     rng0 = c.rng.fork()
     cfgs = integrator_configs(rng0, c.thorough)
@@ -987,9 +1090,10 @@ def search(c, W):
                 # counts if it did not grow exponentially from the early one
                 growth = err / max(err_early, 1e-16)
                 chaotic = growth > 100. * (nsteps_phys / float(n_early)) ** 3
-                if err > 1e-10 and chaotic:
+                tol_end = 2e-12 * nsteps_phys      # rounding allowance grows with the number of steps (3e-10 / 1e-9)
+                if err > tol_end and chaotic:
                     c.cov["inconclusive_chaotic_runs"] = c.cov.get("inconclusive_chaotic_runs", 0) + 1
-                if not err_early <= 1e-11 or (not err <= 1e-10 and not chaotic):
+                if not err_early <= 1e-11 or (not err <= tol_end and not chaotic):
                     c.violation("F18:whfast-corrector2-not-inverse" if is_c2 else "safe-unsafe:" + label.split()[0], "%s: unsafe mode + final synchronize differs from safe mode by %.3g relative after %d steps"
                                 % (label, err, nsteps_phys),
                                 {"integrator": integ, "label": label, "system": system, "steps": nsteps_phys,
@@ -1016,6 +1120,7 @@ def search(c, W):
     c.cov["safe_vs_unsafe_worst_relative_difference_after_50_steps"] = {k: float("%.3g" % v) for k, v in sorted(worst_early.items())}
     c.cov["eos_difference_over_truncation_error"] = {k: float("%.3g" % v) for k, v in sorted(eos_ratio.items())}
     c.cov["search_configurations"] = len(cfgs)
+    api_sequences(c, W, cfgs)
 
 
 def run(c):
